@@ -91,77 +91,82 @@ end Fjall.Conc
 /-! ## "The write stall mechanisms always let writers proceed eventually" -/
 namespace Fjall.Stall
 
-theorem rank_init (progs : List (List Bool)) (n : Nat) :
-    rank (init progs n) = 11 * (progs.map List.length).sum := by
-  have h1 : ∀ ps : List (List Bool), ((ps.map fun p => ({ todo := p } : Writer)).map wrank).sum
-      = 11 * (ps.map List.length).sum := by
-    intro ps
+theorem rank_init (cfg : Cfg) (progs : List (List Bool)) (n : Nat) :
+    rank cfg (init progs n) = (11 + 2 * cfg.fanout) * (progs.map List.length).sum := by
+  have h1 : ∀ (K : Nat) (ps : List (List Bool)), ((ps.map fun p => ({ todo := p } : Writer)).map (wrank K)).sum
+      = (11 + K) * (ps.map List.length).sum := by
+    intro K ps
     induction ps with
     | nil => rfl
     | cons p r ih =>
-      simp only [List.map_cons, List.sum_cons, ih, wrank]
-      omega
-  have h2 : ∀ k, ((List.replicate k WkPhase.idle).map krank).sum = 0 := by
-    intro k
+      simp only [List.map_cons, List.sum_cons, ih, wrank, Nat.mul_add]
+  have h2 : ∀ (K k : Nat), ((List.replicate k WkPhase.idle).map (krank K)).sum = 0 := by
+    intro K k
     induction k with
     | zero => rfl
-    | succ k ih => simp [List.replicate_succ, krank, ih]
-  simp only [rank, init, h1, h2]
-  omega
+    | succ k ih => simp [List.replicate_succ, krank]
+  unfold rank init
+  simp only [h1, h2, List.length_nil, Nat.mul_zero, Nat.add_zero]
+
+theorem run_workers_length (cfg : Cfg) (sch : List Tid) (st : State) :
+    (run cfg st sch).workers.length = st.workers.length := by
+  induction sch generalizing st with
+  | nil => rfl
+  | cons t ts ih =>
+    simp only [run, List.foldl_cons]
+    have := ih (stepT cfg st t)
+    simp only [run] at this
+    rw [this]
+    cases t with
+    | writer i =>
+      simp only [stepT]
+      split
+      · rename_i w _
+        unfold stepWriter
+        split <;> (try split) <;> simp
+      · rfl
+    | worker j pk =>
+      simp only [stepT]
+      split
+      · rename_i p _
+        unfold stepWorker
+        cases p with
+        | flushing =>
+          simp only
+          rw [(sendCompacts_fields cfg cfg.fanout _).2.2.2.2.2.2.2.2.1]
+          simp
+        | idle => cases pk <;> simp only <;> (repeat' split) <;> simp
+        | _ => simp only <;> (repeat' split) <;> simp
+      · rfl
 
 /-- **No deadlock between writers, the stall check and the workers** (the code after fix F24:
     workers never wait for room in their own channel; writers leave the journal critical section
-    before the stall check).  For every channel capacity, every halt threshold ≥ 1, any number of
-    writers with any programs (any pattern of writes that push the memtable over its limit), at
-    least one worker, and every schedule: in every reachable state in which some writer has not
-    finished, some thread's next step is effective - it is not waiting for the lock, a message,
-    room in the channel or a flush - and that step lowers `rank`. -/
+    before the stall check).  For every channel capacity, every halt threshold ≥ 1, every
+    compaction fan-out, any number of writers with any programs (any pattern of writes that push
+    the memtable over its limit), at least one worker, and every schedule: in every reachable
+    state in which some writer has not finished, some thread's next step is effective - it is not
+    waiting for the lock, a message, room in the channel or a flush - and that step lowers `rank`. -/
 theorem c14_stall_no_deadlock (cfg : Cfg) (hc : cfg.Live) (progs : List (List Bool)) (nworkers : Nat)
     (hn : 0 < nworkers) (sched : List Tid) :
     let s := run cfg (init progs nworkers) sched
-    s.done = false → ∃ tid, enabled cfg s tid = true ∧ rank (stepT cfg s tid) < rank s := by
+    s.done = false → ∃ tid, enabled cfg s tid = true ∧ rank cfg (stepT cfg s tid) < rank cfg s := by
   intro s hnd
   have hi : Inv s := run_inv cfg hc _ sched (init_inv progs nworkers)
   have hwk : s.workers ≠ [] := by
-    have hlen : ∀ (sch : List Tid) (st : State), (run cfg st sch).workers.length = st.workers.length := by
-      intro sch
-      induction sch with
-      | nil => intro st; rfl
-      | cons t ts ih =>
-        intro st
-        simp only [run, List.foldl_cons]
-        have := ih (stepT cfg st t)
-        simp only [run] at this
-        rw [this]
-        cases t with
-        | writer i =>
-          simp only [stepT]
-          split
-          · rename_i w _
-            unfold stepWriter
-            split <;> (try split) <;> simp
-          · rfl
-        | worker j pk =>
-          simp only [stepT]
-          split
-          · rename_i p _
-            unfold stepWorker
-            cases p <;> simp only <;> (repeat' split) <;> simp
-          · rfl
     intro e
-    have := hlen sched (init progs nworkers)
+    have := run_workers_length cfg sched (init progs nworkers)
     rw [show (run cfg (init progs nworkers) sched) = s from rfl, e] at this
     simp [init] at this
     omega
   obtain ⟨tid, he⟩ := progress cfg hc s hi hwk hnd
   exact ⟨tid, he, step_rank cfg hc s tid hi he⟩
 
-/-- **Bounded work**: whatever the schedule, at most `11 · (number of writes)` steps are
-    effective.  With `c14_stall_no_deadlock`: a scheduler that keeps running threads whose next
-    step is effective - any fair scheduler - brings every writer to the end of its program. -/
+/-- **Bounded work**: whatever the schedule, at most `(11 + 2·fanout) · (number of writes)` steps
+    are effective.  With `c14_stall_no_deadlock`: a scheduler that keeps running threads whose
+    next step is effective - any fair scheduler - brings every writer to the end of its program. -/
 theorem c14_stall_bounded_work (cfg : Cfg) (hc : cfg.Live) (progs : List (List Bool)) (nworkers : Nat)
     (sched : List Tid) :
-    effSteps cfg (init progs nworkers) sched ≤ 11 * (progs.map List.length).sum := by
+    effSteps cfg (init progs nworkers) sched ≤ (11 + 2 * cfg.fanout) * (progs.map List.length).sum := by
   have := effSteps_le cfg hc (init progs nworkers) sched (init_inv progs nworkers)
   rw [rank_init] at this
   omega
@@ -173,7 +178,7 @@ theorem c14_stall_bounded_work (cfg : Cfg) (hc : cfg.Live) (progs : List (List B
 theorem c14_worker_blocking_send_deadlocks :
     let cfg : Cfg := { cap := 1, limit := 1, workerBlockingSend := true }
     let s := run cfg (init [[true, true]] 1)
-      [.writer 0, .writer 0, .writer 0, .worker 0 true, .writer 0, .writer 0, .worker 0 true, .worker 0 true]
+      [.writer 0, .writer 0, .writer 0, .worker 0 .rot, .writer 0, .writer 0, .worker 0 .rot, .worker 0 .rot]
     s.done = false ∧ ∀ tid, enabled cfg s tid = false := by
   refine ⟨by decide, ?_⟩
   intro tid
@@ -192,8 +197,8 @@ theorem c14_worker_blocking_send_deadlocks :
 theorem c14_stall_inside_lock_deadlocks :
     let cfg : Cfg := { limit := 1, unlockBeforeStall := false }
     let s := run cfg (init [[true, false]] 1)
-      [.writer 0, .writer 0, .writer 0, .worker 0 true, .worker 0 true, .worker 0 true, .writer 0, .writer 0,
-       .worker 0 false]
+      [.writer 0, .writer 0, .writer 0, .worker 0 .rot, .worker 0 .rot, .worker 0 .rot, .writer 0, .writer 0,
+       .worker 0 .flush]
     s.done = false ∧ ∀ tid, enabled cfg s tid = false := by
   refine ⟨by decide, ?_⟩
   intro tid
@@ -210,8 +215,8 @@ theorem c14_stall_inside_lock_deadlocks :
 /-! Non-vacuity: the same two-write program under the real protocol runs to completion. -/
 example :
     let s := run { cap := 1, limit := 1 } (init [[true, true]] 1)
-      [.writer 0, .writer 0, .writer 0, .worker 0 true, .writer 0, .writer 0, .worker 0 true, .worker 0 true,
-       .worker 0 true, .worker 0 true, .worker 0 true, .writer 0]
+      [.writer 0, .writer 0, .writer 0, .worker 0 .rot, .writer 0, .writer 0, .worker 0 .rot, .worker 0 .rot,
+       .worker 0 .rot, .worker 0 .rot, .worker 0 .rot, .writer 0]
     s.done = true := by decide
 
 end Fjall.Stall
